@@ -59,6 +59,20 @@ CLAIMED = {
             "batch observed executed); Minter batches are never withdrawn; an observed execution removes exactly that batch and older same-token batches, whose transfers return to the pool.",
             "Contract rule modelled in harness/bridge/world.go (nonce per token increasing, block < timeout; Minter: strict sequence order).",
             "DESIGN.md §4 C13"),
+    "C11": ("exploration",
+            "property-based testing (rapid) against an exact big-integer reference for conversion, commission tiers and burns",
+            "Single-message experiments: withdrawal requests with amounts/fees 1..2^255 (powers of ten/two +-1), decimals 0..24, rates with 18 fractional digits, holder values at every tier boundary +-1 in "
+            "three spellings, exact/insufficient balances, wrong or unknown denoms; deposits (SendToHub and TransferToChain->hub). Oracle: debit and burn exactly amount+fee, commission = floor(rate_eff*(amount+fee)) "
+            "<= configured rate, scheduled amount = toExt(amount-commission), deposit credit and mint = floor(locked*10^18/10^d); a failed request leaves the state hash unchanged.",
+            "Holder lookup semantics as implemented by x/oracle GetHolderValue (documented in the evidence assumptions).",
+            "DESIGN.md §4 C11"),
+    "C19": ("exploration",
+            "property-based testing (rapid): bounds, proportionality and conservation over the payouts of one executed batch",
+            "One batch of 1..100 transfers (origins hub/minter/other EVM chain, fee spreads equal/whale/below-average) executed with a generated gas cost, price ratios 1e-9..1e9, decimals 0..24 and 1..9 validators "
+            "of any power split; the payouts are read back from the new Minter pool entries and fee records: reimbursement <= fees collected, refunds only to minter-origin users and <= fee paid, commission shares "
+            "proportional to power and summing to <= collected, supply growth + new in-flight value <= collected, fee record in [0, fee paid] in external units and = fee - refund where visible exactly.",
+            "Proportionality tolerance = truncation of the 2^32 normalisation (total/2^28) + 3 units.",
+            "DESIGN.md §4 C19"),
 }
 
 NOT_YET = "check not built yet in this round (planned in DESIGN.md §4); not claimed until its machinery exists"
